@@ -471,6 +471,12 @@ def run(tier):
     simple_api(prog, res)
     from ..rules import errors
     all_or_none(prog, res, errors.compute_E(prog))
+    # frozen guards of lib/compress for the error codes this property owns (shared inventory, split by code)
+    import json as _json, os as _os
+    from ..rules import guards as _guards
+    _inv = [e for e in _json.load(open(_os.path.join(_os.path.dirname(_os.path.abspath(__file__)), "inv", "compress_all.json"))) if set(e["codes"]) & {'parameter_outOfBound', 'stage_wrong', 'parameter_unsupported', 'parameter_combination_unsupported', 'stabilityCondition_notRespected'}]
+    _guards.check_inventory(prog, res, 'T8.frozen-guards(parameter,stage)', _inv)
+    res.need('T8.frozen-guards(parameter,stage)', 50)
     return res.finish(
         explanation="The parameter table decided cell by cell from the AST/CFG: every ZSTD_cParameter/ZSTD_dParameter "
                     "value has a case in bounds/set/get (and isUpdateAuthorized); every store of a setter case is "
